@@ -14,6 +14,9 @@ let tl s k = String.sub s k (String.length s - k)
 let action_of a =
   if a = "-" || a = "wr" || a = "zw" then Some ANop else   (* wr, zw: epilogues of the harness without observable events *)
   match a.[0] with
+  | 't' when String.length a > 1 && (a.[1] = 'a' || a.[1] = 'u') ->
+    (* the relative entry points: tickit_watch_timer_after_msec / _after_tv: a deadline, like any other *)
+    (match ints (tl a 2) with [d; fl; cb] -> Some (ATimer (zi (if a.[1] = 'a' then d * 1000 else d), flags_of fl, zi cb)) | _ -> failwith "ta")
   | 't' -> (match ints (tl a 1) with [d; fl; cb] -> Some (ATimer (zi d, flags_of fl, zi cb)) | _ -> failwith "t")
   | 'l' -> (match ints (tl a 1) with [fl; cb] -> Some (ALater (flags_of fl, zi cb)) | _ -> failwith "l")
   | 'w' ->
@@ -205,9 +208,56 @@ let io_oracle c o =
   match (try Some (parse_obs o) with _ -> None) with
   | None -> "BAD unreadable observation"
   | Some obs -> if j_checkb env ops (shift 1 obs) then "OK" else "BAD differs from the IO specification: " ^ pr_obs (shift (-1) (j_run env ops))
-let model line = if io_mode line then io_model line else match chain_mode line with Some proc -> chain_model proc line | None -> model line
+(* ---- nest cases "WN ...": model LoopNest.n_run -- nested iterations (callback action n = tickit_tick(NOHANG) from inside
+   a callback) and DESTROY handlers that act (db<k>=<acts>: run when callback k is notified by tickit_destroy).
+   VERIF_C17_ASSIGN=1 / VERIF_C17_DETACH=1: the seeded variants. *)
+let nest_mode line = match split_ws line with "WN" :: _ -> true | _ -> false
+let assign = (try Sys.getenv "VERIF_C17_ASSIGN" = "1" with Not_found -> false)
+let detach = (try Sys.getenv "VERIF_C17_DETACH" = "1" with Not_found -> false)
+let parse_nest line =
+  let cbs = Hashtbl.create 8 and dbs = Hashtbl.create 8 in
+  let ops = ref [] in
+  let nact_of a = if a = "n" then NTick else match action_of a with Some x -> NA x | None -> failwith ("act " ^ a) in
+  List.iter (fun tok ->
+      if tok = "WN" then () else
+      if String.length tok > 2 && (tok.[0] = 'c' || tok.[0] = 'd') && tok.[1] = 'b' then begin
+        match String.index_opt tok '=' with
+        | Some i ->
+          let k = int_of_string (String.sub tok 2 (i - 2)) in
+          let acts = List.filter (fun x -> x <> "") (String.split_on_char ',' (tl tok (i + 1))) in
+          if tok.[0] = 'c' then Hashtbl.replace cbs k (List.map nact_of acts)
+          else Hashtbl.replace dbs k (List.map (fun a -> match action_of a with Some x -> x | None -> failwith ("act " ^ a)) acts)
+        | None -> failwith "table"
+      end else
+        match (if tok = "n" then Some NTick else match action_of tok with Some a -> Some (NA a) | None -> None) with
+        | Some a -> ops := NAct a :: !ops
+        | None ->
+          (match tok.[0] with
+           | 'r' -> ops := NRun (zi (int_of_string (tl tok 1))) :: !ops
+           | _ -> failwith ("op " ^ tok)))
+    (split_ws line);
+  let env z = try Hashtbl.find cbs (int_of_z z) with Not_found -> [] in
+  let denv z = try Hashtbl.find dbs (int_of_z z) with Not_found -> [] in
+  (env, denv, List.rev !ops)
+let nest_model line =
+  let (env, denv, ops) = parse_nest line in
+  match n_run assign detach env denv (nat_of_int 3000) ops with
+  | None -> "NONE fuel"
+  | Some (l, clean) -> if clean then pr_obs l else if l = [] then "LEAK" else pr_obs l ^ " LEAK"
+let nest_oracle c o =
+  let (env, denv, ops) = parse_nest c in
+  let leak = List.mem "LEAK" (split_ws o) in
+  let o = String.concat " " (List.filter (fun t -> t <> "LEAK") (split_ws o)) in
+  match (try Some (parse_obs o) with _ -> None) with
+  | None -> "BAD unreadable observation"
+  | Some obs ->
+    if leak then "BAD a watch was never destroyed (leak)" else
+    if n_checkb false false env denv (nat_of_int 3000) ops obs then "OK"
+    else "BAD differs from the nested-iteration / destroy-handler model: " ^ (match n_run false false env denv (nat_of_int 3000) ops with Some (l, _) -> pr_obs l | None -> "?")
+let model line = if nest_mode line then nest_model line else if io_mode line then io_model line else match chain_mode line with Some proc -> chain_model proc line | None -> model line
 let oracle line =
   match String.index_opt line '|' with
+  | Some i when nest_mode line -> nest_oracle (String.sub line 0 i) (tl line (i + 1))
   | Some i when io_mode line -> io_oracle (String.sub line 0 i) (tl line (i + 1))
   | Some i when chain_mode line <> None ->
     (match chain_mode line with Some proc -> chain_oracle proc (String.sub line 0 i) (tl line (i + 1)) | None -> "BAD")
